@@ -432,6 +432,15 @@ fn get_array_hip_accum(mode: &Mode) -> f64 {
 }
 
 /// Merge Array4/Array6 into Array8 by iterating registers
+fn is_array_out_of_order(mode: &Mode) -> bool {
+    match mode {
+        Mode::Array8(src) => src.is_out_of_order(),
+        Mode::Array6(src) => src.is_out_of_order(),
+        Mode::Array4(src) => src.is_out_of_order(),
+        Mode::List { .. } | Mode::Set { .. } => false,
+    }
+}
+
 fn merge_array46_same_lgk(dst: &mut Array8, num_registers: usize, get_value: impl Fn(u32) -> u8) {
     for slot in 0..num_registers {
         let val = get_value(slot as u32);
@@ -530,11 +539,9 @@ fn convert_array8_to_type(src: &Array8, lg_config_k: u8, target_type: HllType) -
                 }
             }
 
-            let src_est = src.estimate();
-            let arr6_est = array6.estimate();
-            if src_est > arr6_est {
-                array6.set_hip_accum(src_est);
-            }
+            // Same registers, so the same estimator state: the estimate and bounds must not
+            // depend on the representation requested.
+            array6.set_estimator_mode(src.is_out_of_order(), src.hip_accum());
 
             HllSketch::from_mode(lg_config_k, Mode::Array6(array6))
         }
@@ -548,11 +555,7 @@ fn convert_array8_to_type(src: &Array8, lg_config_k: u8, target_type: HllType) -
                 }
             }
 
-            let src_est = src.estimate();
-            let arr4_est = array4.estimate();
-            if src_est > arr4_est {
-                array4.set_hip_accum(src_est);
-            }
+            array4.set_estimator_mode(src.is_out_of_order(), src.hip_accum());
 
             HllSketch::from_mode(lg_config_k, Mode::Array4(array4))
         }
@@ -578,6 +581,7 @@ fn copy_or_downsample(src_mode: &Mode, src_lg_k: u8, tgt_lg_k: u8) -> Array8 {
     if src_lg_k <= tgt_lg_k {
         let mut result = Array8::new(src_lg_k);
         let src_hip = get_array_hip_accum(src_mode);
+        let src_ooo = is_array_out_of_order(src_mode);
 
         match src_mode {
             Mode::Array8(src) => {
@@ -596,7 +600,10 @@ fn copy_or_downsample(src_mode: &Mode, src_lg_k: u8, tgt_lg_k: u8) -> Array8 {
             }
         }
 
-        result.set_hip_accum(src_hip);
+        // An out-of-order source has no valid HIP accumulator to inherit: the copy must use
+        // the composite estimator as well, or a non-empty union would estimate zero.
+        let ooo = src_ooo || result.is_out_of_order();
+        result.set_estimator_mode(ooo, src_hip);
         result
     } else {
         // Downsample from src to tgt
